@@ -20,6 +20,7 @@ PROPS = {
     'C13': ('c13', 'proof', ['SUNalg']),
     'C11': ('c11', 'proof', ['SUNalg']),
     'C06': ('c06', 'proof', ['SUNalg', 'const']),
+    'C14': ('c14', 'proof', ['SUNalg', 'instantiate']),
 }
 
 
